@@ -21,7 +21,7 @@ Definition args_ok (o : op) : Prop :=
   | OShrink n | OShrinkLT n | OXF n | OXB n | OXFB n | OXBB n | OXFC n | OXBC n
   | OPushB n | OPushF n | OMTo n | OMFrom n | OPTo n | OTrunc n | OPushBA n | OPushFA n => 0 <= n
   | OXFV n N | OXBV n N => 0 <= n /\ 0 <= N
-  | OXFO n sl rf2 | OXBO n sl rf2 => 0 <= n /\ 0 <= sl /\ 0 <= rf2
+  | OXFO n cap2 rf2 | OXBO n cap2 rf2 => 0 <= n /\ 0 <= rf2 <= cap2
   | OSlice c o N => 0 <= c /\ 0 <= o /\ 0 <= N
   | OMToV sh n | OMFromV sh n | OPToV sh n | OPFromV sh n => shape_ok sh /\ 0 <= n
   | _ => True
@@ -69,8 +69,10 @@ Definition flat_spec (o : op) (own : bool) (F F' G' D : list byte) (ob : obs) : 
   | OClear => if own then F' = [] else r = NA /\ F' = F
   | OPushB s => if own then (r = 0 /\ F' = F) \/ (r = s /\ exists X, zlen X = s /\ F' = F ++ X) else r = NA /\ F' = F
   | OPushF s => if own then (r = 0 /\ F' = F) \/ (r = s /\ exists X, zlen X = s /\ F' = X ++ F) else r = NA /\ F' = F
-  | OXFO n _ _ => if own then r = Z.min n (zlen F) /\ G' = firstn (Z.to_nat r) F /\ F' = skipn (Z.to_nat r) F else r = NA /\ F' = F
-  | OXBO n _ _ => if own then r = Z.min n (zlen F) /\ G' = skipn (Z.to_nat (zlen F - r)) F /\ F' = firstn (Z.to_nat (zlen F - r)) F
+  | OXFO n _ _ => if own then (r = -1 /\ G' = [] /\ F' = F) \/ (r = Z.min n (zlen F) /\ G' = firstn (Z.to_nat r) F /\ F' = skipn (Z.to_nat r) F)
+                  else r = NA /\ F' = F
+  | OXBO n _ _ => if own then (r = -1 /\ G' = [] /\ F' = F) \/
+                              (r = Z.min n (zlen F) /\ G' = skipn (Z.to_nat (zlen F - r)) F /\ F' = firstn (Z.to_nat (zlen F - r)) F)
                   else r = NA /\ F' = F
   | OTrunc n =>
       if own then r = zlen F' /\ r <= n /\ (n <= zlen F -> F' = firstn (Z.to_nat n) F) /\ (zlen F <= n -> exists X, F' = F ++ X)
@@ -159,19 +161,25 @@ Qed.
 Lemma sub_whole b : sub b 0 (zlen b) = b.
 Proof. unfold sub, zlen. simpl. rewrite Nat2Z.id. apply firstn_all. Qed.
 
+(* the operations that WRITE bytes into the vector under test; only they need its elements not to overlap *)
+Definition writes_vector (o : op) : Prop :=
+  match o with OMFrom _ | OMFromV _ _ | OPFromV _ _ => True | _ => False end.
+
 (* ---------------------------------------------------------------- one step *)
-Theorem step_refines m o : wf_machine m -> args_ok o ->
-  exists m1 ob, step m o = Some (m1, ob) /\ wf_machine m1 /\
+Theorem step_refines_gen m o :
+  wf_view (m_st m) (live (m_iv m)) -> (writes_vector o -> ids_ok (live (m_iv m))) -> args_ok o ->
+  exists m1 ob, step m o = Some (m1, ob) /\
+                (wf_view (m_st m1) (live (m_iv m1)) /\ (ids_ok (live (m_iv m)) -> ids_ok (live (m_iv m1)))) /\
                 flat_spec o (m_own m) (mflat m) (mflat m1) (auxflat m1) (dstflat m1 ob) ob.
 Proof.
-  destruct m as [st own iv aux chunk]. unfold wf_machine, mflat, auxflat, dstflat; simpl. intros [W IDS] A.
+  destruct m as [st own iv aux chunk]. unfold mflat, auxflat, dstflat; simpl. intros W HI A.
   pose proof (v_sum_refines st (live iv) W) as SUM. pose proof (zlen_nonneg (flatT st (live iv))) as FN.
   pose proof (wf_ids_below st _ W) as BEL.
-  destruct o; simpl in A; unfold step; cbn [m_st m_own m_iv m_aux m_chunk].
+  destruct o; simpl in A, HI; unfold step; cbn [m_st m_own m_iv m_aux m_chunk].
   - (* sum *) eexists _, _; split; [reflexivity|]. simpl. auto.
   - (* shrink *)
-    assert (IDP : forall v' r, v_shrink_to (live iv) n = (v', r) -> ids_ok v').
-    { unfold v_shrink_to. intros v' r E. destruct (n =? 0); [inversion E; constructor|].
+    assert (IDP : forall v' r, v_shrink_to (live iv) n = (v', r) -> ids_ok (live iv) -> ids_ok v').
+    { unfold v_shrink_to. intros v' r E IDS. destruct (n =? 0); [inversion E; constructor|].
       destruct (shrink_loop (live iv) n) as [[v1 h] s1] eqn:R. destruct (shrink_loop_ids _ _ _ _ _ R) as [post P].
       destruct h; inversion E; subst; eapply ids_ok_prefix; eauto. }
     destruct own.
@@ -190,7 +198,7 @@ Proof.
     destruct (v_shrink_less_than (live iv) n) as [v' r] eqn:E.
     destruct (v_shrink_less_than_refines st _ _ _ _ W A E) as (W' & [post P] & H0 & H1 & H2).
     eexists _, _; split; [reflexivity|]. simpl.
-    split; [split; [exact W'|]; eapply ids_ok_prefix; [exact IDS|rewrite P, map_app; reflexivity]|].
+    split; [split; [exact W'|]; intros IDS; eapply ids_ok_prefix; [exact IDS|rewrite P, map_app; reflexivity]|].
     exists (flatT st post). split; [rewrite P, flatT_app; reflexivity|].
     split; [intros Z0; destruct (H0 Z0) as [-> _]; reflexivity|].
     split.
@@ -204,8 +212,8 @@ Proof.
       split; [lia|]. split; [lia|]. split; [intros _; rewrite firstn_whole by lia; reflexivity | intros _; exists []; rewrite app_nil_r; reflexivity]. }
     apply Z.eqb_neq in C0. unfold o_shrink_to. destruct (v_shrink_to (live iv) n) as [v' r0] eqn:E.
     destruct (v_shrink_to_refines st _ _ _ _ W A E) as (R & F & W' & D).
-    assert (I' : ids_ok v').
-    { revert E. unfold v_shrink_to. destruct (n =? 0); [intros E; inversion E; constructor|].
+    assert (I' : ids_ok (live iv) -> ids_ok v').
+    { intros IDS. revert E. unfold v_shrink_to. destruct (n =? 0); [intros E; inversion E; constructor|].
       destruct (shrink_loop (live iv) n) as [[v1 h] s1] eqn:RR. destruct (shrink_loop_ids _ _ _ _ _ RR) as [post P].
       destruct h; intros E; inversion E; subst; eapply ids_ok_prefix; eauto. }
     destruct (r0 =? n) eqn:C.
@@ -216,7 +224,7 @@ Proof.
       assert (X : live iv ++ skipn (length (live iv)) (live iv) = live iv) by (rewrite skipn_all, app_nil_r; reflexivity).
       rewrite X. destruct (r0 =? n) eqn:C2; [apply Z.eqb_eq in C2; contradiction|].
       set (iv1 := upd_back iv (live iv)).
-      destruct (o_push_back_alloc_spec chunk st iv1 (n - r0) W IDS ltac:(lia)) as (st' & iv' & k & EA & Hk & (W2 & I2 & XX & LX & FX)).
+      destruct (o_push_back_alloc_spec chunk st iv1 (n - r0) W ltac:(lia)) as (st' & iv' & k & EA & Hk & (W2 & I2 & XX & LX & FX)).
       rewrite EA. eexists _, _; split; [reflexivity|]. simpl. split; [auto|]. simpl in FX. rewrite FX, zlen_app.
       split; [lia|]. split; [lia|]. split; [intros; lia|]. intros _. exists XX. reflexivity.
   - (* xf *)
@@ -260,7 +268,7 @@ Proof.
     pose proof (v_xfc_refines st _ _ _ _ W A E) as G. destruct p as [[pid poff]|].
     + destruct G as (Ln & Wp & Bp & Fv & W' & L & [pre P]).
       eexists _, _; split; [reflexivity|]. simpl. rewrite ?live_wfront.
-      split; [split; [exact W'|eapply ids_ok_suffix; eauto]|]. right.
+      split; [split; [exact W'|intros IDS; eapply ids_ok_suffix; eauto]|]. right.
       rewrite flatT_single, Bp, <- SUM. repeat split; auto. discriminate.
     + subst v'. destruct own; [|eexists _, _; split; [reflexivity|]; simpl; split; [auto|]; left; auto].
       destruct (v_sum (live iv) <? n) eqn:C; [eexists _, _; split; [reflexivity|]; simpl; split; [auto|]; left; auto|].
@@ -325,7 +333,7 @@ Proof.
     pose proof (v_xbc_refines st _ _ _ _ W A E) as G. destruct p as [[pid poff]|].
     + destruct G as (Ln & Wp & Bp & Fv & W' & L & [post P]).
       eexists _, _; split; [reflexivity|]. simpl. rewrite ?live_wback.
-      split; [split; [exact W'|eapply ids_ok_prefix; eauto]|]. right.
+      split; [split; [exact W'|intros IDS; eapply ids_ok_prefix; eauto]|]. right.
       rewrite flatT_single, Bp, <- SUM. repeat split; auto. discriminate.
     + subst v'. destruct own; [|eexists _, _; split; [reflexivity|]; simpl; split; [auto|]; left; auto].
       destruct (v_sum (live iv) <? n) eqn:C; [eexists _, _; split; [reflexivity|]; simpl; split; [auto|]; left; auto|].
@@ -372,7 +380,7 @@ Proof.
     rewrite E. eexists _, _; split; [reflexivity|]. simpl.
     assert (FV : flatT st2 (live iv) = flatT st (live iv)).
     { rewrite (frame_view st1 st2 [mkiov d 0 n] (live iv) FR W1 (all_disj_lo_hi d _ _ BEL FD)). exact F1. }
-    split; [split; [eapply Forall_impl; [|exact W1]; auto|exact IDS]|]. split; [exact FV|].
+    split; [split; [eapply Forall_impl; [|exact W1]; auto|auto]|]. split; [exact FV|].
     exists (flatT st1 [mkiov d 0 n]). rewrite FDst, F1.
     split; [|reflexivity]. rewrite K. rewrite <- (zlen_flatT st1 _ Wd), <- (zlen_flatT st1 _ W1), F1. reflexivity.
   - (* mfrom *)
@@ -381,12 +389,12 @@ Proof.
     assert (W1 : wf_view st1 (live iv)) by (apply wf_view_app; exact W).
     assert (F1 : flatT st1 (live iv) = flatT st (live iv)) by (apply flatT_app_store; exact W).
     assert (FD : ids_from d [mkiov d 0 n]) by (constructor; [simpl; lia|constructor]).
-    destruct (v_memcpy_iov_refines st1 (live iv) [mkiov d 0 n] n W1 Wd (ids_ok_pairwise st1 _ W1 IDS) (all_disj_lo_hi d _ _ BEL FD) A)
+    destruct (v_memcpy_iov_refines st1 (live iv) [mkiov d 0 n] n W1 Wd (ids_ok_pairwise st1 _ W1 (HI I)) (all_disj_lo_hi d _ _ BEL FD) A)
       as (st2 & k & E & K & FDst & FR & WF & ZL).
     rewrite E. eexists _, _; split; [reflexivity|]. simpl.
     assert (FS : flatT st2 [mkiov d 0 n] = flatT st1 [mkiov d 0 n]).
     { apply (frame_view st1 st2 (live iv) [mkiov d 0 n] FR Wd (all_disj_hi_lo d _ _ BEL FD)). }
-    split; [split; [eapply Forall_impl; [|exact W1]; auto|exact IDS]|].
+    split; [split; [eapply Forall_impl; [|exact W1]; auto|auto]|].
     rewrite FS, FDst, F1. split; [|reflexivity].
     rewrite K. rewrite <- (zlen_flatT st1 _ Wd), <- (zlen_flatT st1 _ W1), F1. reflexivity.
   - (* mtov *)
@@ -399,7 +407,7 @@ Proof.
     rewrite E. eexists _, _; split; [reflexivity|]. simpl.
     assert (FV : flatT st2 (live iv) = flatT st (live iv)).
     { rewrite (frame_view st1 st2 dv (live iv) FR W1 (all_disj_lo_hi _ _ _ BEL FD)). exact F1. }
-    split; [split; [eapply Forall_impl; [|exact W1]; auto|exact IDS]|]. split; [exact FV|].
+    split; [split; [eapply Forall_impl; [|exact W1]; auto|auto]|]. split; [exact FV|].
     exists (flatT st1 dv). rewrite FDst, F1.
     split; [|reflexivity]. rewrite K. rewrite <- (zlen_flatT st1 _ Wd), <- (zlen_flatT st1 _ W1), F1. reflexivity.
   - (* mfromv *)
@@ -407,12 +415,12 @@ Proof.
     destruct (new_bufs_spec _ _ _ _ Ash NB) as (x & -> & Wd & FD & Od). set (st1 := st ++ x) in *.
     assert (W1 : wf_view st1 (live iv)) by (apply wf_view_app; exact W).
     assert (F1 : flatT st1 (live iv) = flatT st (live iv)) by (apply flatT_app_store; exact W).
-    destruct (v_memcpy_iov_refines st1 (live iv) dv n W1 Wd (ids_ok_pairwise st1 _ W1 IDS) (all_disj_lo_hi _ _ _ BEL FD) A)
+    destruct (v_memcpy_iov_refines st1 (live iv) dv n W1 Wd (ids_ok_pairwise st1 _ W1 (HI I)) (all_disj_lo_hi _ _ _ BEL FD) A)
       as (st2 & k & E & K & FDst & FR & WF & ZL).
     rewrite E. eexists _, _; split; [reflexivity|]. simpl.
     assert (FS : flatT st2 dv = flatT st1 dv).
     { apply (frame_view st1 st2 (live iv) dv FR Wd (all_disj_hi_lo _ _ _ BEL FD)). }
-    split; [split; [eapply Forall_impl; [|exact W1]; auto|exact IDS]|].
+    split; [split; [eapply Forall_impl; [|exact W1]; auto|auto]|].
     rewrite FS, FDst, F1. split; [|reflexivity].
     rewrite K. rewrite <- (zlen_flatT st1 _ Wd), <- (zlen_flatT st1 _ W1), F1. reflexivity.
   - (* pto *)
@@ -423,7 +431,7 @@ Proof.
     assert (FD : ids_from d [mkiov d 0 n]) by (constructor; [simpl; lia|constructor]).
     destruct (v_pipe_iov_refines st1 [mkiov d 0 n] (live iv) n Wd W1 ltac:(repeat constructor) (all_disj_hi_lo d _ _ BEL FD) A)
       as (st2 & v' & k & E & K & FDst & FR & WF & ZL & FS' & WS' & _).
-    pose proof (v_pipe_iov_ids _ _ _ _ _ _ _ E IDS) as I'.
+    pose proof (v_pipe_iov_ids _ _ _ _ _ _ _ E) as I'.
     rewrite E. eexists _, _; split; [reflexivity|]. simpl. rewrite ?live_wfront.
     split; [auto|].
     exists (flatT st1 [mkiov d 0 n]). rewrite FDst, FS', F1.
@@ -435,7 +443,7 @@ Proof.
     assert (F1 : flatT st1 (live iv) = flatT st (live iv)) by (apply flatT_app_store; exact W).
     destruct (v_pipe_iov_refines st1 dv (live iv) n Wd W1 (ids_ok_pairwise st1 _ Wd Od) (all_disj_hi_lo _ _ _ BEL FD) A)
       as (st2 & v' & k & E & K & FDst & FR & WF & ZL & FS' & WS' & _).
-    pose proof (v_pipe_iov_ids _ _ _ _ _ _ _ E IDS) as I'.
+    pose proof (v_pipe_iov_ids _ _ _ _ _ _ _ E) as I'.
     rewrite E. eexists _, _; split; [reflexivity|]. simpl. rewrite ?live_wfront.
     split; [auto|].
     exists (flatT st1 dv). rewrite FDst, FS', F1.
@@ -445,12 +453,12 @@ Proof.
     destruct (new_bufs_spec _ _ _ _ Ash NB) as (x & -> & Wd & FD & Od). set (st1 := st ++ x) in *.
     assert (W1 : wf_view st1 (live iv)) by (apply wf_view_app; exact W).
     assert (F1 : flatT st1 (live iv) = flatT st (live iv)) by (apply flatT_app_store; exact W).
-    destruct (v_pipe_iov_refines st1 (live iv) dv n W1 Wd (ids_ok_pairwise st1 _ W1 IDS) (all_disj_lo_hi _ _ _ BEL FD) A)
+    destruct (v_pipe_iov_refines st1 (live iv) dv n W1 Wd (ids_ok_pairwise st1 _ W1 (HI I)) (all_disj_lo_hi _ _ _ BEL FD) A)
       as (st2 & v' & k & E & K & FDst & FR & WF & ZL & FS' & WS' & _).
     rewrite E. eexists _, _; split; [reflexivity|]. simpl.
     assert (FS : flatT st2 dv = flatT st1 dv).
     { apply (frame_view st1 st2 (live iv) dv FR Wd (all_disj_hi_lo _ _ _ BEL FD)). }
-    split; [split; [eapply Forall_impl; [|exact W1]; auto|exact IDS]|].
+    split; [split; [eapply Forall_impl; [|exact W1]; auto|auto]|].
     rewrite FS, FDst, FS', F1. split; [|split; reflexivity].
     rewrite K. rewrite <- (zlen_flatT st1 _ Wd), <- (zlen_flatT st1 _ W1), F1. reflexivity.
   - (* pushb *)
@@ -460,10 +468,10 @@ Proof.
     destruct (iend iv <? cap iv).
     + eexists _, _; split; [reflexivity|]. simpl. split; [split|].
       * apply Forall_app; split; [exact W1 | constructor; [apply wf_new_elem; exact A | constructor]].
-      * unfold ids_ok in *. rewrite map_app. simpl.
+      * intros IDS. unfold ids_ok in *. rewrite map_app. simpl.
         apply NoDup_rev in IDS. rewrite <- (rev_involutive (map iv_id (live iv) ++ [zlen st])). apply NoDup_rev.
-        rewrite rev_app_distr. simpl. constructor; [|exact IDS]. rewrite <- in_rev. intros HI. apply in_map_iff in HI.
-        destruct HI as (y & Ey & Hy). eapply Forall_forall in BEL; [|exact Hy]. simpl in BEL. lia.
+        rewrite rev_app_distr. simpl. constructor; [|exact IDS]. rewrite <- in_rev. intros HI2. apply in_map_iff in HI2.
+        destruct HI2 as (y & Ey & Hy). eapply Forall_forall in BEL; [|exact Hy]. simpl in BEL. lia.
       * right. split; [reflexivity|]. eexists; split; [|rewrite flatT_app, F1; reflexivity].
         rewrite flatT_single. apply (zlen_bytesT _ _ (wf_new_elem st size A)).
     + eexists _, _; split; [reflexivity|]. simpl. split; [auto|]. left; auto.
@@ -474,25 +482,25 @@ Proof.
     destruct (0 <? ibeg iv).
     + eexists _, _; split; [reflexivity|]. simpl. split; [split|].
       * constructor; [apply wf_new_elem; exact A | exact W1].
-      * unfold ids_ok in *. simpl. constructor; [|exact IDS]. intros HI. apply in_map_iff in HI.
-        destruct HI as (y & Ey & Hy). eapply Forall_forall in BEL; [|exact Hy]. simpl in BEL. lia.
+      * intros IDS. unfold ids_ok in *. simpl. constructor; [|exact IDS]. intros HI2. apply in_map_iff in HI2.
+        destruct HI2 as (y & Ey & Hy). eapply Forall_forall in BEL; [|exact Hy]. simpl in BEL. lia.
       * right. split; [reflexivity|]. eexists; split; [|rewrite flatT_cons, F1; reflexivity].
         apply (zlen_bytesT _ _ (wf_new_elem st size A)).
     + eexists _, _; split; [reflexivity|]. simpl. split; [auto|]. left; auto.
   - (* pushba *)
     destruct own; [|eexists _, _; split; [reflexivity|]; simpl; auto].
-    destruct (o_push_back_alloc_spec chunk st iv bytes W IDS A) as (st' & iv' & k & EA & Hk & (W2 & I2 & XX & LX & FX)).
+    destruct (o_push_back_alloc_spec chunk st iv bytes W A) as (st' & iv' & k & EA & Hk & (W2 & I2 & XX & LX & FX)).
     rewrite EA. eexists _, _; split; [reflexivity|]. simpl. split; [auto|]. split; [lia|]. exists XX. auto.
   - (* pushfa *)
     destruct own; [|eexists _, _; split; [reflexivity|]; simpl; auto].
-    destruct (o_push_front_alloc_spec chunk st iv bytes W IDS A) as (st' & iv' & k & EA & Hk & (W2 & I2 & XX & LX & FX)).
+    destruct (o_push_front_alloc_spec chunk st iv bytes W A) as (st' & iv' & k & EA & Hk & (W2 & I2 & XX & LX & FX)).
     rewrite EA. eexists _, _; split; [reflexivity|]. simpl. split; [auto|]. split; [lia|]. exists XX. auto.
   - (* popf *)
     destruct own; [|eexists _, _; split; [reflexivity|]; simpl; auto].
     unfold o_pop_front. destruct (live iv) as [|e r] eqn:Lv.
     + eexists _, _; split; [reflexivity|]. simpl. rewrite Lv. split; [split; constructor|]. simpl. split; [unfold zlen; simpl; lia|reflexivity].
     + apply wf_view_cons in W. destruct W as [We Wr]. eexists _, _; split; [reflexivity|]. simpl.
-      split; [split; [exact Wr|unfold ids_ok in *; simpl in IDS; inversion IDS; auto]|].
+      split; [split; [exact Wr|intros IDS; unfold ids_ok in *; simpl in IDS; inversion IDS; auto]|].
       rewrite flatT_cons, zlen_app, (zlen_bytesT _ _ We). pose proof (wf_len_nonneg _ _ We). pose proof (zlen_nonneg (flatT st r)).
       split; [lia|]. rewrite skipn_app_Z2 by (rewrite (zlen_bytesT _ _ We); lia). rewrite (zlen_bytesT _ _ We), Z.sub_diag. reflexivity.
   - (* popb *)
@@ -500,9 +508,9 @@ Proof.
     unfold o_pop_back. destruct (rev (live iv)) as [|e r] eqn:Lv.
     + eexists _, _; split; [reflexivity|]. simpl. split; [auto|]. split; [lia|]. rewrite Z.sub_0_r, firstn_whole by lia. reflexivity.
     + assert (LL : live iv = rev r ++ [e]) by (rewrite <- (rev_involutive (live iv)), Lv; reflexivity).
-      rewrite LL in W, IDS. apply Forall_app in W. destruct W as [Wr We]. inversion We as [|? ? We1 _]; subst.
+      rewrite LL in W. apply Forall_app in W. destruct W as [Wr We]. inversion We as [|? ? We1 _]; subst.
       eexists _, _; split; [reflexivity|]. simpl.
-      split; [split; [exact Wr|eapply ids_ok_prefix; [exact IDS|rewrite map_app; reflexivity]]|].
+      split; [split; [exact Wr|intros IDS; rewrite LL in IDS; eapply ids_ok_prefix; [exact IDS|rewrite map_app; reflexivity]]|].
       rewrite LL, flatT_app, flatT_single, zlen_app, (zlen_bytesT _ _ We1).
       pose proof (wf_len_nonneg _ _ We1). pose proof (zlen_nonneg (flatT st (rev r))).
       split; [lia|]. replace (zlen (flatT st (rev r)) + iv_len e - iv_len e) with (zlen (flatT st (rev r))) by lia.
@@ -510,12 +518,15 @@ Proof.
   - (* clear *)
     destruct own; eexists _, _; (split; [reflexivity|]); simpl; auto. split; [split; constructor|reflexivity].
   - (* xfo *)
-    destruct A as (A & Asl & Arf).
+    destruct A as (A & Arf).
     destruct own; [|eexists _, _; split; [reflexivity|]; simpl; auto].
     destruct (n =? 0) eqn:C.
-    + apply Z.eqb_eq in C. subst n. eexists _, _; split; [reflexivity|]. simpl. split; [auto|].
+    + apply Z.eqb_eq in C. subst n. eexists _, _; split; [reflexivity|]. simpl. split; [auto|]. right.
       replace (Z.min 0 (zlen (flatT st (live iv)))) with 0 by lia. auto.
-    + pose proof (xf_view_refines st (live iv) n (zlen (live iv)) W A) as G.
+    + destruct (cap2 - rf2 <? zlen (live iv)) eqn:GD.
+      { eexists _, _; split; [reflexivity|]. simpl. split; [auto|]. left; auto. }
+      apply Z.ltb_ge in GD. unfold xfo_body.
+      pose proof (xf_view_refines st (live iv) n (zlen (live iv)) W A) as G.
       pose proof (do_xf_ids (cb_view_front (zlen (live iv))) (live iv) n []) as I.
       pose proof (proj1 (extract_view_enough_slots (zlen (live iv)) (live iv) n ltac:(lia))) as EN.
       pose proof (zlen_nonneg (live iv)) as Lnn.
@@ -524,31 +535,51 @@ Proof.
       assert (LA : zlen a' <= zlen (live iv)).
       { clear - EX. revert EX. unfold do_extract_front. destruct (n =? 0); [intros E; inversion E; subst; unfold zlen; simpl; lia|].
         intros E. pose proof (cb_view_len (zlen (live iv)) (live iv) n [] ltac:(unfold zlen; simpl; lia)) as H. rewrite E in H. exact H. }
-      destruct (zlen (live iv) + rf2 + slack <? rf2 + zlen a') eqn:C2; [apply Z.ltb_lt in C2; lia|].
-      replace (rf2 + zlen (live iv) + slack) with (zlen (live iv) + rf2 + slack) by lia. rewrite C2.
-      eexists _, _; split; [reflexivity|]. simpl. split; [auto|]. rewrite Fa, Fv, <- SUM. auto.
+      destruct (cap2 <? rf2 + zlen a') eqn:C2; [apply Z.ltb_lt in C2; lia|].
+      eexists _, _; split; [reflexivity|]. simpl. split; [auto|]. right. rewrite Fa, Fv, <- SUM. auto.
   - (* xbo *)
-    destruct A as (A & Asl & Arf).
+    destruct A as (A & Arf).
     destruct own; [|eexists _, _; split; [reflexivity|]; simpl; auto].
     destruct (n =? 0) eqn:C.
-    + apply Z.eqb_eq in C. subst n. eexists _, _; split; [reflexivity|]. simpl. split; [auto|].
+    + apply Z.eqb_eq in C. subst n. eexists _, _; split; [reflexivity|]. simpl. split; [auto|]. right.
       replace (Z.min 0 (zlen (flatT st (live iv)))) with 0 by lia. rewrite Z.sub_0_r, skipn_whole, firstn_whole by lia. auto.
-    + pose proof (xb_view_refines st (live iv) n (zlen (live iv)) W A) as G.
+    + destruct (cap2 - rf2 <? zlen (live iv)) eqn:GD.
+      { eexists _, _; split; [reflexivity|]. simpl. split; [auto|]. left; auto. }
+      apply Z.ltb_ge in GD. unfold xbo_body.
+      pose proof (xb_view_refines st (live iv) n (zlen (live iv)) W A) as G.
       pose proof (do_xb_ids (cb_view_back (zlen (live iv))) (live iv) n []) as I.
       pose proof (proj2 (extract_view_enough_slots (zlen (live iv)) (live iv) n ltac:(lia))) as EN.
       pose proof (zlen_nonneg (live iv)) as Lnn.
       destruct (do_extract_back (cb_view_back (zlen (live iv))) (live iv) n []) as [|v' a'|v' rem a'] eqn:EX; [contradiction|contradiction|].
       destruct G as (K & Fa & Fv & W' & Wa & L).
-      destruct (rf2 + zlen (live iv) + slack <? rf2 + zlen (live iv)) eqn:C2; [apply Z.ltb_lt in C2; lia|].
+      destruct (cap2 <? rf2 + zlen (live iv)) eqn:C2; [apply Z.ltb_lt in C2; lia|].
       simpl andb.
-      eexists _, _; split; [reflexivity|]. simpl. split; [auto|]. rewrite Fa, Fv, <- SUM. auto.
+      eexists _, _; split; [reflexivity|]. simpl. split; [auto|]. right. rewrite Fa, Fv, <- SUM. auto.
+Qed.
+
+(* the form with the machine invariant (elements in bounds, no two in the same buffer) *)
+Theorem step_refines m o : wf_machine m -> args_ok o ->
+  exists m1 ob, step m o = Some (m1, ob) /\ wf_machine m1 /\
+                flat_spec o (m_own m) (mflat m) (mflat m1) (auxflat m1) (dstflat m1 ob) ob.
+Proof.
+  intros [W I] A. destruct (step_refines_gen m o W (fun _ => I) A) as (m1 & ob & E & [W1 I1] & FS).
+  exists m1, ob. split; [exact E|]. split; [split; auto|exact FS].
+Qed.
+(* operations that do not write into the vector need NO side condition beyond "elements lie in their buffers":
+   elements may share buffers, overlap, repeat *)
+Theorem step_refines_reads m o : wf_view (m_st m) (live (m_iv m)) -> ~ writes_vector o -> args_ok o ->
+  exists m1 ob, step m o = Some (m1, ob) /\ wf_view (m_st m1) (live (m_iv m1)) /\
+                flat_spec o (m_own m) (mflat m) (mflat m1) (auxflat m1) (dstflat m1 ob) ob.
+Proof.
+  intros W NW A. destruct (step_refines_gen m o W (fun w => False_ind _ (NW w)) A) as (m1 & ob & E & [W1 _] & FS).
+  exists m1, ob. auto.
 Qed.
 
 (* ---------------------------------------------------------------- sequences *)
 Inductive refines : machine -> list op -> list obs -> machine -> Prop :=
 | R_nil m : refines m [] [] m
 | R_cons m o ob m1 ops obs m2 :
-    step m o = Some (m1, ob) -> wf_machine m1 -> m_own m1 = m_own m ->
+    step m o = Some (m1, ob) -> wf_view (m_st m1) (live (m_iv m1)) -> m_own m1 = m_own m ->
     flat_spec o (m_own m) (mflat m) (mflat m1) (auxflat m1) (dstflat m1 ob) ob ->
     refines m1 ops obs m2 -> refines m (o :: ops) (ob :: obs) m2.
 
@@ -562,6 +593,7 @@ Proof.
            end; unfold ret_only in E; inversion E; reflexivity.
 Qed.
 
+(* every operation list, all 29 operations *)
 Theorem ops_refine_flat : forall ops m, wf_machine m -> Forall args_ok ops ->
   exists m' obs, run m ops = Some (m', obs) /\ wf_machine m' /\ refines m ops obs m'.
 Proof.
@@ -571,7 +603,21 @@ Proof.
     destruct (step_refines m o W Ao) as (m1 & ob & E & W1 & FS).
     pose proof (step_own _ _ _ _ E) as OW.
     destruct (IH m1 W1 Ar) as (m2 & obs & R & W2 & RF).
-    exists m2, (ob :: obs). simpl. rewrite E, R. repeat split; auto; try apply W2. econstructor; eauto.
+    exists m2, (ob :: obs). simpl. rewrite E, R. repeat split; auto; try apply W2. econstructor; eauto. apply W1.
+Qed.
+(* every list of operations that do not write into the vector (everything except memcpy_from / pipe_from):
+   no side condition on how the elements are laid out in memory *)
+Theorem ops_refine_flat_reads : forall ops m, wf_view (m_st m) (live (m_iv m)) -> Forall args_ok ops ->
+  Forall (fun o => ~ writes_vector o) ops ->
+  exists m' obs, run m ops = Some (m', obs) /\ wf_view (m_st m') (live (m_iv m')) /\ refines m ops obs m'.
+Proof.
+  induction ops as [|o ops IH]; intros m W A NW.
+  - exists m, []. repeat split; auto. constructor.
+  - inversion A as [|? ? Ao Ar]; inversion NW as [|? ? No Nr]; subst.
+    destruct (step_refines_reads m o W No Ao) as (m1 & ob & E & W1 & FS).
+    pose proof (step_own _ _ _ _ E) as OW.
+    destruct (IH m1 W1 Ar Nr) as (m2 & obs & R & W2 & RF).
+    exists m2, (ob :: obs). simpl. rewrite E, R. repeat split; auto. econstructor; eauto.
 Qed.
 
 (* ---------------------------------------------------------------- F2: the unfixed iov_iterator constructor *)
@@ -586,6 +632,22 @@ Example fixed_ctor_empty :
   step (init_machine true 8 2 64 []) (OMFromV [] 3) <> None.
 Proof. repeat split; vm_compute; discriminate. Qed.
 
+(* ---------------------------------------------------------------- F36: extract_front/back(bytes, iovector ptr) without the capacity guard *)
+(* a destination vector with fewer free slots than the source has elements: the out slots leave iovs[capacity] *)
+Theorem no_oob_extract_into_refuted :
+  exists (st : store) (v : view) (n cap2 rf2 : Z), wf_view st v /\ 0 <= n /\ 0 <= rf2 <= cap2 /\
+    old_extract_front_into v n cap2 rf2 = None /\ old_extract_back_into v n cap2 rf2 = None.
+Proof.
+  exists [[1; 2]; [3; 4]; [5; 6]], [mkiov 0 0 2; mkiov 1 0 2; mkiov 2 0 2], 6, 2, 0.
+  split; [repeat constructor; (eexists; split; [reflexivity|]; unfold zlen; simpl; lia)|].
+  repeat split; try lia; vm_compute; reflexivity.
+Qed.
+(* the fixed wrappers return -1 and touch nothing *)
+Example fixed_extract_into :
+  (match step (init_machine true 8 0 64 [2; 2; 2]) (OXFO 6 2 0) with Some (m1, ob) => o_ret ob = -1 /\ live (m_iv m1) = live (m_iv (init_machine true 8 0 64 [2; 2; 2])) | None => False end) /\
+  (match step (init_machine true 8 0 64 [2; 2; 2]) (OXBO 6 2 0) with Some (m1, ob) => o_ret ob = -1 | None => False end).
+Proof. split; vm_compute; auto. Qed.
+
 (* a non-trivial machine meeting the hypotheses of the theorems: 3 elements, one of length 0 *)
 Example wf_machine_example : wf_machine (init_machine true 8 2 64 [2; 0; 3]) /\ wf_machine (init_machine false 0 0 1 [2; 0; 3]).
 Proof.
@@ -598,5 +660,13 @@ Proof.
     + unfold ids_ok; simpl. repeat constructor; simpl; intuition discriminate.
 Qed.
 Example ops_example :
-  Forall args_ok [OTrunc 9; OXFC 4; OPushFA 3; OXF 1; OXFV 3 4; OPushB 2; OXBV 2 0; OMFromV [1; 0; 2] 3; OSlice 2 1 0; OPToV [2; 2] 9; OShrink 1; OPopF; OSum].
+  Forall args_ok [OTrunc 9; OXFC 4; OPushFA 3; OXFO 2 8 1; OXF 1; OXFV 3 4; OPushB 2; OXBV 2 0; OMFromV [1; 0; 2] 3; OSlice 2 1 0; OPToV [2; 2] 9; OShrink 1; OPopF; OSum].
 Proof. repeat constructor; simpl; lia. Qed.
+(* hypotheses of ops_refine_flat_reads: elements that overlap, repeat and share one buffer are fine *)
+Example reads_example :
+  wf_view [[1; 2; 3]] [mkiov 0 0 2; mkiov 0 1 2; mkiov 0 0 0; mkiov 0 0 3; mkiov 0 1 2] /\
+  Forall (fun o => ~ writes_vector o) [OXF 1; OMToV [2; 1] 4; OSlice 2 1 3; OXBB 5; OPToV [0; 9] 7; OTrunc 20].
+Proof.
+  split; [repeat constructor; (eexists; split; [reflexivity|]; unfold zlen; simpl; lia)|].
+  repeat constructor; simpl; auto.
+Qed.
